@@ -60,6 +60,48 @@ def run_script(item):
         return {"crash": True, "rc": p.returncode, "stderr": p.stderr[-300:].decode("latin1")}
 
 
+def tsan_pass(ck, pairs_):
+    """free-running race detector run: two application threads, one session each, truly concurrent.  A data race whose
+    location is a process global (or whose two accesses come from different instances) is unsynchronised shared mutable state."""
+    import re
+    exe = vlib.cc_harness("tsan", "multi_t", ["multi_h.c", "vs_stub.c"], enc=True, dec=True)
+    out = []
+    for name, a, b in pairs_:
+        en = dict(os.environ)
+        en.update({"SVT_LOG": "-2", "TSAN_OPTIONS": "halt_on_error=0:report_signal_unsafe=0:exitcode=0"})
+        try:
+            p = subprocess.run([exe, "par=1", "a=" + a, "b=" + b], stdout=subprocess.PIPE, stderr=subprocess.PIPE, env=en, timeout=900)
+        except subprocess.TimeoutExpired:
+            ck.violation("C17:tsan-run-timeout@" + name, "race-detector run did not finish", {"pair": name, "a": a, "b": b, "tsan": 1})
+            continue
+        err = p.stderr.decode("latin1")
+        reports = err.split("WARNING: ThreadSanitizer: data race")[1:]
+        groups = {}
+        for r in reports:
+            g = re.search(r"Location is global '([^']+)'", r)
+            if not g:
+                continue
+            sym = g.group(1)
+            if re.match(r"blk_geom_(mds|dps)$", sym):
+                grp = "block-geometry-tables"
+            elif sym in ("lp_group", "num_groups", "group_affinity", "alternate_groups"):
+                grp = "thread-affinity-globals"
+            elif sym.startswith("g_log_"):
+                grp = "log-globals"
+            elif sym.startswith(("svt_", "eb_", "highbd_", "aom_")) or "first_call_setup" in sym or sym in (
+                    "pred_high", "dc_pred", "dc_pred_high", "dc_pred_c", "highbd_dc_pred_c", "convolve", "convolveHbd", "pred", "eb_pred"):
+                grp = "dispatch-tables"
+            else:
+                grp = sym
+            groups.setdefault(grp, set()).add(sym)
+        for grp, globs in sorted(groups.items()):
+            ck.violation("C17:race@process-global:%s" % grp, "data race between the two instances on process-global state (%d symbols, e.g. %s) [pair %s]"
+                         % (len(globs), ", ".join(sorted(globs)[:4]), name), {"pair": name, "a": a, "b": b, "tsan": 1})
+        writers = groups
+        out.append({"pair": name, "race_reports": len(reports), "reports_on_globals": sum(len(v) for v in writers.values()), "global_groups": sorted(writers)})
+    return out
+
+
 def obs(i):
     return (tuple(i["rcs"]), i["npk"], i["pkt_hash"], i["nrc"], i["rec_hash"], i["npic"], i["pic_hash"])
 
@@ -118,12 +160,19 @@ def run(tier):
         states += len(res)
         per.append({"pair": name, "a": a, "b": b, "interleavings_executed": len(res), "of": len(allscripts), "outcomes": {str(k): v for k, v in kinds.items()}})
         samples.append({"pair": name, "script": allscripts[len(allscripts) // 2]})
-    cov = {"states": states, "transitions": trans, "traces_validated_against_impl": execs, "samples": samples or [{"pair": "none"}], "exhaustive": exhaustive,
+    tsan = []
+    if ck.time_left() > 60:
+        E0 = "enc:w=64,h=64,n=2"
+        tp = [("enc+enc-identical", E0, E0), ("enc+enc-sb128-preset4", "enc:w=128,h=128,n=2", "enc:w=128,h=128,n=2,enc_mode=4")]
+        if tier == "thorough":
+            tp += [("enc+enc-c-only-kernels", E0, "enc:w=64,h=64,n=2,use_cpu_flags=0"), ("enc+dec", E0, "dec:" + d1)]
+        tsan = tsan_pass(ck, tp if tier == "thorough" else tp[:1])
+    cov = {"states": states, "transitions": trans, "tsan_concurrent_runs": tsan, "traces_validated_against_impl": execs, "samples": samples or [{"pair": "none"}], "exhaustive": exhaustive,
            "pairs": per,
            "explanation": "for each instance pair every one of the C(14,7)=3432 interleavings of the two 7-step API scripts is executed on the real libraries in one "
                           "process under the controlled scheduler (library threads follow the canonical schedule); 'states' = interleavings executed"}
     return ck.finish(cov, ["API calls of the two instances are serialised (one application thread); overlapping API calls are not explored",
-                           "unsynchronised shared state is decided through its observable effect (different output / crash), not by a race detector"])
+                           "unsynchronised shared state: observable effects over all API-level interleavings, plus one free-running ThreadSanitizer run per encoder pair (races located in process globals)"])
 
 
 def replay(path):
